@@ -149,7 +149,7 @@ Lemma nodup_flat_map_suffix : forall A (p g : A -> list Z) l,
   NoDup (flat_map (fun a => p a ++ g a) l) -> NoDup (flat_map g l).
 Proof.
   induction l; simpl; intros H; [constructor|].
-  rewrite <- app_assoc in H. apply NoDup_app_remove_l in H.
+  rewrite <- app_assoc in H. apply nodup_app_iff in H. destruct H as (_ & H & _).
   apply nodup_app_iff in H. destruct H as (Hg & Hr & Hd).
   apply nodup_app_iff. repeat split; auto.
   intros x Hx Hi. apply (Hd x Hx).
@@ -177,10 +177,10 @@ Proof.
   assert (T : forall th, In th (pool (ginit g0 progs)) -> t_out th = [] /\ einserted th = []).
   { unfold ginit, init. simpl. intros th Hth. apply in_map_iff in Hth. destruct Hth as (p & <- & _).
     rewrite t_out_load, einserted_load. auto. }
-  constructor; rewrite ?E; try constructor; simpl; try tauto; try lia.
-  - intros th x Hth. destruct (T th Hth) as [-> _]. simpl. tauto.
-  - intros th x Hth. destruct (T th Hth) as [-> _]. simpl. tauto.
-  - intros th x Hth. destruct (T th Hth) as [_ ->]. simpl. tauto.
+  constructor; rewrite ?E; try (constructor; fail); simpl; try tauto; try lia.
+  all: intros;
+    match goal with Hp : In ?th (map _ _) |- _ =>
+      let E1 := fresh in let E2 := fresh in destruct (T th Hp) as [E1 E2]; rewrite ?E1, ?E2 in *; simpl in *; tauto end.
 Qed.
 
 Lemma ids_inv_step : forall lon loe c i, ids_inv lon loe c -> ids_inv lon loe (step gcode gexec c i).
